@@ -170,4 +170,71 @@ class C10(Prop):
         return h
 
 
+def many_members(nm, retain, policy, first):
+    """nm quick members spawned inside the block (they all finish before join looks at any of them): what completed / result /
+    exception describe, and what iteration hands out"""
+    import asyncio
+    from aiorpcx import TaskGroup
+    info = {}
+
+    async def member(i):
+        if i == 0 and first == 'raises':
+            raise ValueError('first')
+        return None if (i == 0 and first == 'none') else i + 1
+
+    async def main():
+        g = TaskGroup(wait=policy, retain=retain)
+        tasks = []
+        async with g:
+            for i in range(nm):
+                tasks.append(await g.spawn(member(i)))
+        info['completed_is'] = tasks.index(g.completed) if g.completed in tasks else None
+        info['exception'] = type(g.exception).__name__ if g.exception is not None else None
+        # a second group, collected by iteration
+        g2 = TaskGroup(retain=retain)
+        tasks2 = [await g2.spawn(member(i + 1)) for i in range(nm)]
+        await asyncio.sleep(0.01)
+        got = []
+        async for t in g2:
+            got.append(tasks2.index(t))
+        info['iterated'] = len(got)
+        info['iterated_in_order_exactly_once'] = got == list(range(nm))
+    loop = asyncio.new_event_loop()
+    try:
+        loop.run_until_complete(asyncio.wait_for(main(), 60))
+    finally:
+        loop.close()
+    return info
+
+
+def _extra_checks(self, ctx):
+    from harness.core import Failure
+    out, n = [], 0
+    for nm in (2, 50, 1023, 1024, 1025, 1100, 3000):
+        for retain in (False, True):
+            for policy, first in ((all, 'value'), (all, 'raises'), (object, 'none'), (any, 'value')):
+                o = many_members(nm, retain, policy, first)
+                n += 1
+                want_completed = 1 if (policy is object and first == 'none') else 0
+                want_exc = 'ValueError' if first == 'raises' else None
+                bad = None
+                if o['completed_is'] != want_completed or o['exception'] != want_exc:
+                    bad = (f"completed describes member #{o['completed_is']} (exception {o['exception']}); the first member that finished "
+                           f"{'with a result that is not None ' if policy is object else ''}is #{want_completed} (exception {want_exc})")
+                elif not o['iterated_in_order_exactly_once']:
+                    bad = f"iteration yielded {o['iterated']} of {nm} members (each exactly once, in completion order, is required)"
+                if bad:
+                    out.append(Failure({'kind': 'many_members', 'members': nm, 'retain': retain, 'policy': getattr(policy, '__name__', str(policy)), 'first': first}, o,
+                                       f'{nm} members that have all finished before join examines them: {bad}'))
+                    break
+            if len(out) >= 2:
+                break
+        if len(out) >= 2:
+            break
+    ctx['extra_evals'] += n
+    ctx['notes'].append(f'groups of up to 3000 members that all finish before being collected (completed / exception / iteration): {n} runs')
+    return out
+
+
+C10.extra_checks = _extra_checks
 PROP = C10()
